@@ -43,6 +43,10 @@ func (self *Parser) syntaxError(err types.ParsingError) SyntaxError {
 	if self.p > len(self.s) {
 		self.p = len(self.s)
 	}
+	/* native get_by_path reports -1 for an all-blank input longer than 4 bytes */
+	if self.p < 0 {
+		self.p = 0
+	}
 	return SyntaxError{
 		Pos:  self.p,
 		Src:  self.s,
